@@ -37,6 +37,18 @@ INFIX_OP_TO_FUNC = {
 MAX_EMPTY = 100
 
 
+def _typed(value):
+    """Excel type of an evaluated operand or argument.
+
+    Functions without a return annotation (COUNT, MAX, ISBLANK, ...) hand
+    back native Python values; operators and functions combine and compare
+    Excel types (=COUNT(1)=TRUE is FALSE, not Python's 1 == True).
+    """
+    if type(value) in func_xltypes.NATIVE_TO_XLTYPE:
+        return func_xltypes.ExcelType.cast_from_native(value)
+    return value
+
+
 class EvalContext:
 
     cells = None
@@ -195,18 +207,18 @@ class OperatorNode(ASTNode):
         if self.ttype == 'operator-prefix':
             assert self.left is None, 'Left operand for prefix operator'
             op = PREFIX_OP_TO_FUNC[self.tvalue]
-            return op(self.right.eval(context))
+            return op(_typed(self.right.eval(context)))
 
         elif self.ttype == 'operator-infix':
             op = INFIX_OP_TO_FUNC[self.tvalue]
             return op(
-                self.left.eval(context),
-                self.right.eval(context),
+                _typed(self.left.eval(context)),
+                _typed(self.right.eval(context)),
             )
         elif self.ttype == 'operator-postfix':
             assert self.right is None, 'Right operand for postfix operator'
             op = POSTFIX_OP_TO_FUNC[self.tvalue]
-            return op(self.left.eval(context))
+            return op(_typed(self.left.eval(context)))
         else:
             raise ValueError(f'Invalid operator type: {self.ttype}')
 
@@ -257,10 +269,10 @@ class FunctionNode(ASTNode):
                 ])
             elif (param.kind == param.VAR_POSITIONAL):
                 args.extend([
-                    pitem.eval(context) for pitem in pvalue
+                    _typed(pitem.eval(context)) for pitem in pvalue
                 ])
             else:
-                args.append(pvalue.eval(context))
+                args.append(_typed(pvalue.eval(context)))
         # 4. Run function and return result.
         return func(*args)
 
